@@ -30,16 +30,37 @@ RULE = ("k = 1..4 points, three generator streams from one PRNG: lattice L = ord
         "coordinates (each negative with probability 1/3, or all positive = strictly inside) plus a normal offset "
         "h in {0, +-L*10^-U(0,6)}, 10 % near/exact duplicates; edge M = n = 1, duplicates, exactly collinear / "
         "coplanar inputs, origin on a vertex / edge / face / centroid, zero vectors, prev_v_len_sqr below the result, "
-        "scaled copies (1 .. 1e-9) of a regular tetrahedron and a triangle (witnesses of the two known findings). "
+        "scaled copies (1 .. 1e-9) of a regular tetrahedron and a triangle, sub-EPSILON segments, witnesses of the "
+        "four known findings. "
         "Every case is run on both solvers. Oracle tolerance: | |v| - min | <= 1e-9 * max(min, Lmax), Lmax = max_i |p_i| "
         "('norm within 1e-9 relative' read relative to the larger of the true distance and the size of the simplex); "
         "returned point within 1e-9*Lmax of the hull of the returned subset; weights >= -1e-12, |sum - 1| <= 1e-9. "
-        "A case is non-trivial if the solver returns; distinct = distinct (solver, points, prev)")
+        "A failing input carries a known-finding id only if an exact rational recomputation puts it into the class: "
+        "abs-eps = 0 < |n|^2 < EPSILON_SQR / 0 < |b-a|^2 < EPSILON_SQR / origin strictly inside with a plane value "
+        "within EPSILON of 0 (Jolt), origin strictly inside with a cofactor d[i,14] in (0, EPSILON] (original); "
+        "illcond = violation <= 64*eps/rho*Lmax, rho = smallest non-zero relative Gram determinant det G/Lmax^(2m) "
+        "of a sub-simplex. A case is non-trivial if the solver returns; distinct = distinct (solver, points, prev)")
 EXPLANATION = ("the Lean theorems are about the models D3.Simplex (Jolt) and D3.SimplexOrig (original backup procedure); "
                "this run compares set bits / ordered indices exactly and points / weights / squared distances within "
                "1e-12 (lattice, Rat) resp. 1e-9*Lmax (general, Float, arbitrated at Rat) with the real code, and checks "
                "the real code against an exact rational minimum-norm oracle (all sub-simplices, integer Cramer)")
-PARTIAL = {"backup_optimal": "placeholder"}
+PARTIAL = {
+    "backup_optimal": "not proved (Johnson's theorem: the best sub-simplex with positive cofactors is the minimiser of "
+                      "the hull; needs Caratheodory + the cofactor/projection identity). Proved instead: "
+                      "backup_feasible_1..4 — for every dot table with the right diagonal the procedure never divides "
+                      "by zero, the weights are >= 0, sum to 1, reproduce search_direction from the reordered subset in "
+                      "order, distance_squared = |search_direction|^2 and is <= the squared norm of every vertex. "
+                      "Optimality of the real code is checked on every run by the exact rational QP oracle.",
+    "asIs_counterexamples_at_R": "jolt_triangle_band_asIs_counterexample and orig_tetra_band_asIs_counterexample are "
+                                 "evaluated on the same polymorphic model term at Rat (decide +kernel), not restated "
+                                 "at the reals; the tetrahedron band is proved at the reals (tetra_band_asIs, "
+                                 "jolt_tetra_band_asIs_counterexample_real)",
+    "band_error_bounds": "inside the excluded bands (0 < |n|^2 < EPSILON_SQR, 0 < |b-a|^2 < EPSILON_SQR, plane value "
+                         "within EPSILON of 0) only line_degenerate (nearer endpoint is returned) is proved; no "
+                         "bounded-error lemma for the triangle / tetrahedron bands",
+    "relative_interior": "the theorems state that the hull of the sub-simplex named by the set bits contains the "
+                         "returned point, not that the point lies in its relative interior",
+}
 ASSUMPTIONS = [
     "'norm within 1e-9 relative' is read as | |v| - dist | <= 1e-9 * max(dist, Lmax) with Lmax = max_i |p_i|: relative "
     "to the larger of the true distance and the size of the simplex (a tolerance relative to dist alone is "
@@ -47,13 +68,17 @@ ASSUMPTIONS = [
     "membership of the returned point in the hull of the returned subset is required within 1e-9*Lmax (Euclidean)",
     "the Jolt solver is called with prev_v_len_sqr = inf (success must be True); the original with backup=True, "
     "dot_product_table = points @ points.T and identity index vectors",
+    "float accuracy: on ill-conditioned simplices (smallest non-zero relative Gram determinant rho of a sub-simplex "
+    "below ~1e-5) both solvers miss the 1e-9 tolerance by rounding; such failures are reported as known findings "
+    "F-C18-*-illcond only when the violation is at most 64*eps/rho*Lmax (below 1e-9*Lmax for rho >= 1.5e-5), "
+    "every other failure is a violation",
     "coordinates are finite doubles without overflow / underflow of squared lengths (|p| within 1e-100 .. 1e100)",
 ]
 TRUSTED = [
     "exact oracle of harness/props/c18.py: enumeration of the <= 15 sub-simplices, affine projection by integer "
     "Cramer's rule on the exactly scaled coordinates, comparison of square roots by exact rational squaring",
-    "classification of a failing input into the absolute-threshold bands of the two known findings is an exact "
-    "rational recomputation of |n|^2, |b-a|^2, the plane values and the cofactors d[i,14] from the inputs",
+    "classification of a failing input into the classes of the known findings is an exact rational recomputation of "
+    "|n|^2, |b-a|^2, the plane values, the cofactors d[i,14] and the relative Gram determinants from the inputs",
 ]
 LEAN_TARGETS = []
 
@@ -73,6 +98,9 @@ MANIFEST = dict(
     design="§7 C18")
 
 TOL2 = Fr(1, 10 ** 18)          # (1e-9)^2
+PIN_JOLT_EPS = Fr(1, 2 ** 52)            # utils.EPSILON = 2.220446049250313e-16
+PIN_JOLT_EPS2 = Fr(1, 2 ** 104)          # _gjk_jolt.EPSILON_SQR = 4.930380657631324e-32
+PIN_ORIG_EPS = Fr(10, 2 ** 52)           # _gjk_original.EPSILON = 2.220446049250313e-15
 ORIG_CANDS = ["seg01", "seg02", "face012", "seg03", "face013", "face023", "hull", "v1", "v2", "v3",
               "seg12", "seg13", "seg23", "face123"]
 
@@ -447,7 +475,9 @@ def jolt_band(P):
     """exact test whether the input lies in one of the absolute-threshold bands of F-C18-jolt-abs-eps.
     Returns a description or None."""
     gj, _ = _mods()
-    EPS, EPS2 = Fr(float(gj.EPSILON)), Fr(float(gj.EPSILON_SQR))
+    # thresholds PINNED to the values recorded with the finding (not read from the module: an edit that
+    # enlarges a threshold must not be excused by the known finding)
+    EPS, EPS2 = min(Fr(float(gj.EPSILON)), PIN_JOLT_EPS), min(Fr(float(gj.EPSILON_SQR)), PIN_JOLT_EPS2)
     Pq = to_q(P)
     k = len(Pq)
 
@@ -539,7 +569,7 @@ def orig_band(P):
     _, go = _mods()
     if len(P) != 4:
         return None
-    EPS = Fr(float(go.EPSILON))
+    EPS = min(Fr(float(go.EPSILON)), PIN_ORIG_EPS)   # pinned, see jolt_band
     c = orig_cofactors(to_q(P))
     if all(x > 0 for x in c) and any(x <= EPS for x in c):
         return "origin strictly inside and a cofactor d[i,14] in (0, EPSILON]: d[:,14] = %s" % [float(x) for x in c]
@@ -819,13 +849,49 @@ def edge_cases():
     for s in (1e-3, 1e-6, 1e-9):
         add("tet-outside-scale-%g" % s, scaled([(2, 1, 1), (3, 1, 1), (3, 2, 2), (2, 3, 4)], s))
         add("seg-scale-%g" % s, scaled([(1, 1, 0), (1, -1, 0)], s))
+    # segments shorter than sqrt(EPSILON_SQR): degenerate branch of get_barycentric_coordinates_line
+    add("tiny-seg-a-nearer", [(1e-17, 0, 0), (2e-17, 0, 0)])
+    add("tiny-seg-b-nearer", [(0, 2e-17, 0), (0, 1e-17, 0)])
+    add("tiny-seg-around-origin", [(-1e-17, 0, 0), (1e-17, 0, 0)])
+    add("near-dup-seg", [(1, 2, 3), (1, 2, 3 + 4e-16)])
+    add("near-dup-tri", [(1, 0, 1), (-1, 1, 1), (-1, 1 + 2e-16, 1)])
+    # witnesses of the ill-conditioning findings (float cancellation; found by the general stream)
+    add("illcond-jolt-flat-tet", [[-5.943095231142248, 5.609801791053678, -7.467064134445225],
+                                  [-2.8187403131087616, 2.660665329748174, -3.5415377044311294],
+                                  [-1.1322477862197182, 1.0687529448482236, -1.4225828293044365],
+                                  [-6.069081840404449, 5.728731142609446, -7.625345215676338]])
+    add("illcond-jolt-needle-face", [[11.255625400149558, -14.60910482971587, -27.778650965392373],
+                                     [4.3411412594534635, -5.634902122936529, -10.71369991134556],
+                                     [6.882923401963157, -8.92467501517671, -16.990466996790666],
+                                     [-18.37225363045456, 23.840163977378456, 45.34468328337667]])
+    add("illcond-orig-thin-tri", [[0.009252689023571212, -0.0028011569274636813, -0.01694990373114291],
+                                  [0.0036118033483704803, -0.0010934179351968598, -0.0066159541897151085],
+                                  [-0.026176425792627113, 0.00792463213043081, 0.04795199146695145]])
+    add("illcond-orig-thin-tet", [[0.2544618451363193, -0.2800209579466374, 0.12012521681896046],
+                                  [0.5453132210255345, -0.5973148779769827, 0.25468323997206044],
+                                  [-0.29298586732737686, 0.32007493628449013, -0.1357051889950287],
+                                  [-0.21622468024467148, 0.23776191439853178, -0.10196451453848751]])
     return E
 
 
 # ============================================================================ correspondence
+MAX_BROKEN = 40
+
+
+def add_broke(ctx, name, message, seed):
+    """ctx.broke with a cap: after MAX_BROKEN entries further disagreements are only counted"""
+    if len(ctx.broken) < MAX_BROKEN:
+        ctx.broke("correspondence", name, message, seed)
+    else:
+        ctx.extra["broken_suppressed"] = ctx.extra.get("broken_suppressed", 0) + 1
+
+
 def tie_or_broke(ctx, solver, P, py, mo, why, stream):
     """lattice rule: a mismatch is a tie iff the candidate Python picked has exactly the model's squared
     distance (both represent the same optimum) and both results pass the oracle."""
+    if len(ctx.broken) >= MAX_BROKEN:       # already broken beyond doubt: skip the exact analysis
+        ctx.extra["broken_suppressed"] = ctx.extra.get("broken_suppressed", 0) + 1
+        return False
     Pq = to_q(P)
     seed = {"solver": solver, "points": P, "n": len(P)}
     name = FN_JOLT if solver == "jolt" else FN_ORIG
@@ -852,7 +918,7 @@ def tie_or_broke(ctx, solver, P, py, mo, why, stream):
                 cand, md, m2, [f["what"] for f in fails])
     except Exception as e:  # noqa
         why += " [tie analysis raised %r]" % (e,)
-    ctx.broke("correspondence", name, "%s stream: %s | python=%s model=%s" % (
+    add_broke(ctx, name, "%s stream: %s | python=%s model=%s" % (
         stream, why, {x: py[x] for x in py if x != "table"}, _mo_str(mo)), seed)
     return False
 
@@ -935,6 +1001,18 @@ def corr_small(ctx):
             fl = gj.origin_outside_of_tetrahedron_planes(*[np.array(p, dtype=float) for p in P])
         plan.append(("planes", P, ([int(bool(x)) for x in fl], fl is gj.ALL_TRUE),
                      drv.add("C18.planes", "Q", enc_pts(P, "Q", 4))))
+    # non-lattice inputs for the degenerate branches (exact binary inputs, Rat model)
+    for P in ([(1e-17, 0, 0), (2e-17, 0, 0)], [(0, 2e-17, 0), (0, 1e-17, 0)], [(-1e-17, 0, 0), (1e-17, 0, 0)],
+              [(1, 2, 3), (1, 2, 3 + 4e-16)], [(3, 1, 2), (3 - 4e-16, 1, 2)], [(0.5, 0.25, 1), (1.5, 0.25, -1)]):
+        P = [[float(x) for x in p] for p in P]
+        plan.append(("baryline", P, call(gj.get_barycentric_coordinates_line, P),
+                     drv.add("C18.baryline", "Q", enc_pts(P, "Q", 2))))
+    for P in ([(1, 0, 1), (1, 0, 1 + 2e-16), (3, 0, 1)], [(1, 0, 1), (3, 0, 1), (3, 2e-16, 1)],
+              [(3, 0, 1), (1, 0, 1), (1, 2e-16, 1)], [(1e-5, 0, 1), (0, 1e-5, 1), (0, 0, 1)],
+              [(0, 0, 1), (4, 0, 1), (2, 1e-9, 1)], [(0, 0, 1), (2, 1e-9, 1), (4, 0, 1)]):
+        P = [[float(x) for x in p] for p in P]
+        plan.append(("baryplane", P, call(gj.get_barycentric_coordinates_plane, P),
+                     drv.add("C18.baryplane", "Q", enc_pts(P, "Q", 3))))
     for _ in range(max(2, n // 60)):
         P = pts(4)
         for nn in (1, 2, 3, 4):
@@ -961,7 +1039,7 @@ def corr_small(ctx):
                 vals = [s2q(x) for x in t[2:]]
                 if not all(math.isfinite(x) for x in py):
                     bad = "python not finite %r, model %s" % (py, t)
-                elif len(vals) != len(py) or not all(_close(a, b, 1e-12) for a, b in zip(py, vals)):
+                elif len(vals) != len(py) or not all(_close(a, b, 1e-12 * max(1.0, abs(a))) for a, b in zip(py, vals)):
                     bad = "python %r model %r" % (py, [float(v) for v in vals])
             else:
                 bad = "driver: " + " ".join(t)
@@ -1022,6 +1100,9 @@ def corr_float_stream(ctx, stream, cases):
     qout = arb.run()
     ex = ctx.extra
     for solver, c, mF, why, cid in pending:
+        if len(ctx.broken) >= MAX_BROKEN:
+            ctx.extra["broken_suppressed"] = ctx.extra.get("broken_suppressed", 0) + 1
+            continue
         P, Lm = c["P"], c["Lm"]
         tag = stream + ":" + solver
         tp, ts = 1e-9 * Lm, 2e-9 * Lm * Lm
@@ -1061,7 +1142,7 @@ def corr_float_stream(ctx, stream, cases):
             # reports such inputs as known findings
             ex["known_finding_divergence"][tag] = ex["known_finding_divergence"].get(tag, 0) + 1
             continue
-        ctx.broke("correspondence", FN_JOLT if solver == "jolt" else FN_ORIG,
+        add_broke(ctx, FN_JOLT if solver == "jolt" else FN_ORIG,
                   "%s stream: float model: %s | rat model: %s | python=%s floatmodel=%s ratmodel=%s python-oracle=%s "
                   "model-result-valid=%s" % (stream, why, whyq, {x: py[x] for x in py if x != "table"}, _mo_str(mF),
                                              _mo_str(mQ), [(f["what"], f["finding"]) for f in pf], mok),
@@ -1093,10 +1174,6 @@ def search(ctx):
     boost = 3 if ctx.extra.get("search_boost") else 1
     t0 = time.time()
     cap = ctx.budget(45, 600) * boost
-    # edge stream first: contains the witnesses of the known findings
-    for name, P, prev in edge_cases():
-        if prev is None:
-            run_oracles(ctx, P, "M")
     nl = ctx.budget(6000, 60000) * boost
     for _ in range(nl):
         k = ctx.rng.choice([2, 3, 3, 4, 4, 4])
@@ -1104,6 +1181,10 @@ def search(ctx):
         if time.time() - t0 > cap / 3:
             ctx.notes.append("search: lattice stream stopped by the time cap")
             break
+    # edge stream: contains the witnesses of the known findings
+    for name, P, prev in edge_cases():
+        if prev is None:
+            run_oracles(ctx, P, "M")
     nprs = np.random.RandomState(ctx.rng.randrange(2 ** 32))
     ng = ctx.budget(20000, 200000) * boost
     for i in range(ng):
